@@ -206,20 +206,25 @@ const VersionString = "9.8.7-qver"
 func RunTree(c *TreeCase) TreeOutcome {
 	var out TreeOutcome
 	out.Binds = map[string]map[string][]string{}
-	WithSwap(&out.Outcome, func() {
+	WithSwap(&out.Outcome, func() { RunTreeInner(&out, c) })
+	return out
+}
+
+// RunTreeInner is RunTree without touching the package level streams.
+func RunTreeInner(out *TreeOutcome, c *TreeCase) {
+	{
 		app := cli.App("app", c.Root.Desc)
 		app.ErrorHandling = policies[c.Policy]
 		if c.Version != "" {
 			app.Version("V qversion", VersionString)
 		}
 		td := &treeDecl{holders: map[string][]Holder{}}
-		declareTree(app.Cmd, c.Root, "app", &out, td, nil)
+		declareTree(app.Cmd, c.Root, "app", out, td, nil)
 		err := app.Run(append([]string{"app"}, c.Argv()...))
 		if err != nil {
 			out.HasErr, out.Err = true, err.Error()
 		}
-	})
-	return out
+	}
 }
 
 func normWS(s string) string { return strings.Join(strings.Fields(s), " ") }
